@@ -11,3 +11,5 @@ open SSVerif.Protocol
 #print axioms C09_sys_reachable_wf
 #print axioms C09_sys_ledger_balanced
 #print axioms C09_instances_disjoint_step
+#print axioms C09_alignment_vector_in_bounds
+#print axioms C09_built_alignments_in_bounds
